@@ -1653,6 +1653,10 @@ class Message(ABC):
                 for k in value:
                     if hasattr(value[k], "to_dict"):
                         output_map[k] = value[k].to_dict(casing, include_default_values)
+                    elif value_cls == datetime:
+                        output_map[k] = _Timestamp.timestamp_to_json(value[k])
+                    elif value_cls == timedelta:
+                        output_map[k] = _Duration.delta_to_json(value[k])
                     else:
                         output_map[k] = _scalar_to_json(
                             meta.map_types[1], value[k], value_cls
@@ -1753,7 +1757,11 @@ class Message(ABC):
                 key_type, value_type = meta.map_types
                 value = {
                     _scalar_from_json(key_type, k): (
-                        sub_cls.from_dict(v)
+                        isoparse(v)
+                        if sub_cls == datetime
+                        else _Duration.json_to_delta(v)
+                        if sub_cls == timedelta
+                        else sub_cls.from_dict(v)
                         if value_type == TYPE_MESSAGE
                         else _scalar_from_json(value_type, v, sub_cls)
                     )
